@@ -564,7 +564,7 @@ pub fn replay(case: &Value) -> Result<String, String> {
     let new = parse_bytes(case, "new")?;
     match check_pair(&old, &new, &RADII) {
         Verdict::Ok(_, n, fp) => Ok(format!("holds; {} configurations, fingerprint {:x}", n, fp)),
-        Verdict::Kf1(e) => Err(format!("{} (explained by the compaction swap site, KF1)", e)),
+        Verdict::Kf1(e) => super::cap::kf1_or_violation("C05", e),
         Verdict::Fail(e) => Err(e),
     }
 }
